@@ -3,6 +3,7 @@ package props
 import (
 	"bytes"
 	"fmt"
+	"math"
 	"sync"
 	"sync/atomic"
 	"testing"
@@ -389,6 +390,62 @@ func TestC09(t *testing.T) {
 			}
 		}
 		c.Sig("builder-encode", true)
+	})
+	// permissions given as a Go int (builder.Permissions takes any int): what is stored are its low twelve
+	// bits, for negative and very large values as well
+	r.Case("builder-permissions-int", map[string]any{"modes": "boundary and random ints, negative ones too"}, func(c *mon.Case) {
+		rr := c.Rand()
+		modes := []int{0, 1, 0o644, 0o755, 0o7777, 0o10000, 0o100644, -1, -2, -0o644, -0o10000, -0o10001, math.MaxInt32, math.MinInt32, math.MaxInt64, math.MinInt64, math.MinInt64 + 1, 1 << 40, -(1 << 40) + 0o600}
+		for i := 0; i < r.Pick(200, 4000); i++ {
+			modes = append(modes, int(rr.Uint64()))
+		}
+		for _, mode := range modes {
+			for _, typ := range []int64{data.Data_File, data.Data_Directory, data.Data_Symlink} {
+				var d data.UnixFSData
+				var err error
+				if !c.Guard("BuildUnixFS with builder.Permissions", func() {
+					d, err = builder.BuildUnixFS(func(b *builder.Builder) {
+						builder.DataType(b, typ)
+						builder.Permissions(b, mode)
+					})
+				}) {
+					continue
+				}
+				if err != nil {
+					c.Violation("C09|builder-error", "BuildUnixFS with builder.Permissions(%d): %v", mode, err)
+					continue
+				}
+				want := mode & 0xFFF
+				if p := d.Permissions(); p != want {
+					c.Violation("C09|permissions", "builder.Permissions(%d) on type %d: the message reports %#o, the low twelve bits are %#o", mode, typ, p, want)
+					continue
+				}
+				var enc []byte
+				if !c.Guard("EncodeUnixFSData", func() { enc = data.EncodeUnixFSData(d) }) {
+					continue
+				}
+				c.Count("encodes_compared", 1)
+				c.Count("int_modes_encoded", 1)
+				if mode < 0 {
+					c.Count("negative_int_modes_encoded", 1)
+				}
+				var g pb.Data
+				if err := proto.Unmarshal(enc, &g); err != nil {
+					c.Violation("C09|encode-unreadable", "builder.Permissions(%d): reference rejects %x: %v", mode, enc, err)
+					continue
+				}
+				dp, hasDefault := defaultPerm(uint64(typ))
+				if g.Mode != nil && int(*g.Mode)&0xFFF != want || g.Mode == nil && !((hasDefault && dp == want) || (!hasDefault && want == 0)) {
+					c.Violation("C09|encode-differs|builder-permissions", "builder.Permissions(%d) on type %d: the reference reads mode %v from %x, the low twelve bits are %#o", mode, typ, modeStr(g.Mode), enc, want)
+				}
+				if d2, err := data.DecodeUnixFSData(enc); err != nil {
+					c.Violation("C09|reencode-undecodable", "builder.Permissions(%d): library cannot decode its own encoding %x: %v", mode, enc, err)
+				} else if p2 := d2.Permissions(); p2 != want {
+					c.Violation("C09|permissions-roundtrip", "builder.Permissions(%d) type %d: %#o before, %#o after encode/decode", mode, typ, want, p2)
+				}
+			}
+		}
+		c.Sig("builder-permissions-int", true)
 	})
 	// modification times given as Go time values (builder.Time): every instant a time.Time can hold has a
 	// Unix second count and a nanosecond part, inside and outside the range in which a count of
